@@ -134,3 +134,30 @@ def op_appmutator(req, trace):
         trace.emit({'t': 'tb', 'tb': traceback.format_exc()})
     seams.fault = None
     _exit_event(trace, status, exc, extra=extra)
+
+
+@register('load_evolution')
+def op_load_evolution(req, trace):
+    """Import evolution modules the normal way and report str() of their
+    mutations (C13)."""
+    configure(req)
+    out = {}
+    status, exc = 'ok', None
+    try:
+        from django_evolution.utils.evolutions import get_evolution_module
+        from django_evolution.compat.apps import get_app
+        for pkg, labels in sorted((req['args'].get('modules') or {}).items()):
+            app = get_app(req['args'].get('app_labels', {}).get(pkg, pkg))
+            for label in labels:
+                try:
+                    mod = get_evolution_module(app, label)
+                    out['%s.%s' % (pkg, label)] = {
+                        'mutations': [str(m) for m in mod.MUTATIONS]}
+                except BaseException as e:
+                    out['%s.%s' % (pkg, label)] = {
+                        'error': '%s: %s' % (type(e).__name__, e)}
+    except Exception as e:
+        status, exc = 'exception', e
+        trace.emit({'t': 'tb', 'tb': traceback.format_exc()})
+    trace.emit({'t': 'probe', 'name': 'loaded', 'p': out})
+    _exit_event(trace, status, exc)
